@@ -23,8 +23,12 @@ Proof. exact ConnTimeouts.c12_after_scrub. Qed.
 Theorem c12_late_reply_dropped : forall (s : st) (r : resp) (w : list resp), is_running s = true -> win s = r :: w -> alookup (r_mid r) (rmap s) = None -> alookup (r_mid r) (smap s) = None -> ops (step s DrvResp) = ops s /\ rmap (step s DrvResp) = rmap s /\ smap (step s DrvResp) = smap s /\ inuse (step s DrvResp) = inuse s.
 Proof. exact ConnTimeouts.c12_late_reply_dropped. Qed.
 
-Theorem c12_stream_item_wins : forall (s : st) (o : nat) (c : cop), getop s o = Some c -> o_status c = SActive -> o_rx c = true -> forall r : resp, nth_error (o_items c) (o_taken c) = Some r -> r_kind r <> RDone -> exists c' : cop, getop (step s (StreamNext o)) o = Some c' /\ o_got c' = o_got c ++ [r] /\ o_call c' = None /\ o_status c' = SActive.
+Theorem c12_stream_item_wins : forall (s : st) (o : nat) (c : cop), getop s o = Some c -> o_status c = SActive -> o_rx c = true -> forall r : resp, nth_error (o_items c) (o_taken c) = Some r -> r_kind r <> RDone -> r_kind r = REntry \/ o_kind c <> KSearch true -> exists c' : cop, getop (step s (StreamNext o)) o = Some c' /\ o_got c' = o_got c ++ [r] /\ o_call c' = None /\ o_status c' = SActive.
 Proof. exact ConnTimeouts.c12_stream_item_wins. Qed.
+
+(* behind EntriesOnly a reference or an intermediate message is taken by the adapter and the call goes on: its timer starts afresh *)
+Theorem c12_stream_skipped_item_restarts_timer : forall (s : st) (o : nat) (c : cop), getop s o = Some c -> o_status c = SActive -> o_rx c = true -> forall r : resp, nth_error (o_items c) (o_taken c) = Some r -> r_kind r = RRef \/ r_kind r = RInter -> o_kind c = KSearch true -> exists c' : cop, getop (step s (StreamNext o)) o = Some c' /\ o_got c' = o_got c /\ o_taken c' = S (o_taken c) /\ o_call c' = Some (now s) /\ o_status c' = SActive.
+Proof. exact ConnTimeouts.c12_stream_skipped_item_restarts_timer. Qed.
 
 Theorem c12_stream_call_starts : forall (s : st) (o : nat) (c : cop) (d : Z), getop s o = Some c -> o_status c = SActive -> o_rx c = true -> o_tmo c = Some d -> nth_error (o_items c) (o_taken c) = None -> o_chan c = true -> o_call c = None -> 0 < d -> exists c' : cop, getop (step s (StreamNext o)) o = Some c' /\ o_call c' = Some (now s) /\ o_status c' = SActive /\ scrubq (step s (StreamNext o)) = scrubq s.
 Proof. exact ConnTimeouts.c12_stream_call_starts. Qed.
@@ -42,6 +46,7 @@ Print Assumptions c12_driver_survives.
 Print Assumptions c12_after_scrub.
 Print Assumptions c12_late_reply_dropped.
 Print Assumptions c12_stream_item_wins.
+Print Assumptions c12_stream_skipped_item_restarts_timer.
 Print Assumptions c12_stream_call_starts.
 Print Assumptions c12_stream_pending.
 Print Assumptions c12_stream_fires.
